@@ -10,9 +10,11 @@ statement.  `tol` is `state.knot_tolerance`.
 
 Linear solves (`np.linalg.solve`, `inv`, `scipy…spsolve`, `lstsq` on a full-column-rank matrix) are
 modelled by `solveC`: the exact Gauss–Jordan `Mat.solve` followed by a *certificate check*
-`A·X = B` in exact arithmetic (so every successful solve of the model is a solution by
-construction — theorem `C14_solve_correct`; the check can only fail if `Mat.solve` were wrong, in
-which case the model would answer `LinAlgError` and the correspondence run would expose it).
+`A·X = B` in exact arithmetic.  `Mat.solve` itself is proved sound and complete
+(Lemmas/SolveSound.lean), hence the check never fails: `solveC = Mat.solve` and `invC = Mat.inv` on
+well-shaped input (`C14_solve_is_gauss_jordan`), and `solveC` succeeds whenever the matrix has a left
+inverse (`Interp.solveC_complete`) — in particular for the collocation matrices covered by
+Schoenberg–Whitney (`C14_interpolate_curve_greville`, `C14_interpolate_curve_nested`).
 -/
 
 namespace Splipy
@@ -186,16 +188,21 @@ def cubicCurve (boundary : ℕ) (tol cpRtol cpAtol : K) (x : Mat K) (t : List K)
   let cp ← solveC N rhs
   pure (basis, cp)
 
+/-- `list(range(n+1)) * (p-1) + [0, n]` — the knot values of `bezier` before `knot.sort()`. -/
+def bezierKnotList (p n : ℕ) : List K :=
+  ((List.range (p - 1)).flatMap (fun _ => (List.range (n + 1)).map (fun (i : ℕ) => (i : K)))) ++ [0, (n : K)]
+
+/-- `[x0 + x1 for (x0, x1) in zip(prev, row)]`. -/
+def rowAdd (prev row : Array K) : Array K :=
+  Array.ofFn (n := min prev.size row.size) (fun i => prev.getD i.val 0 + row.getD i.val 0)
+
 /-- `curve_factory.bezier(pts, quadratic, relative)`. -/
 def bezier (tol : K) (pts : Mat K) (quadratic relative : Bool) : PyM (Basis K × Mat K) := do
   let p := if quadratic then 3 else 4
   let n := (pts.size - 1) / (p - 1)
-  let knot : List K := sortK (((List.range (p - 1)).flatMap (fun _ => (List.range (n + 1)).map (fun (i : ℕ) => (i : K))))
-                ++ [0, (n : K)])
+  let knot : List K := sortK (bezierKnotList p n)
   let pts := if relative then
-      (pts.toList.drop 1).foldl (fun (acc : Mat K) row =>
-        let prev := acc.getD (acc.size - 1) #[]
-        acc.push (Array.ofFn (n := min prev.size row.size) (fun i => prev.getD i.val 0 + row.getD i.val 0)))
+      (pts.toList.drop 1).foldl (fun (acc : Mat K) row => acc.push (rowAdd (acc.getD (acc.size - 1) #[]) row))
         (pts.extract 0 1)
     else pts
   let b ← Basis.mk? p knot.toArray (-1) tol
